@@ -17,7 +17,8 @@ InZone(r) == ~(~Defined(M, r) /\ Defined(M, r \o "-of"))
 
 (* ---------------- kind = "roles" ---------------- *)
 \* T: role, given: {inv, invd, invd2, inv_of_invd, has}, canon, canon2, can: {same fields as given, for canon},
-\*    tinv (invert of (s, canon, t)), tdeinv (deinvert of it), tcanon (canonicalize of (s, role, t))
+\*    src, tgt (the ends of the triple, each <<written form, Python type>>: variables, strings, numbers, None),
+\*    tinv (invert of (src, canon, tgt)), tdeinv (deinvert of it), tcanon (canonicalize of (src, role, tgt))
 RolesA == [c |-> EnsureColon(T.role), canon |-> CanonRole(M, T.role), pre |-> PreNorm(M, T.role)]
 FnEq(x, rec) == /\ rec.inv = IsInverted(M, x) /\ rec.invd = InvertRole(M, x) /\ rec.has = HasRole(M, x)
                 /\ rec.invd2 = InvertRole(M, InvertRole(M, x)) /\ rec.inv_of_invd = IsInverted(M, InvertRole(M, x))
@@ -34,9 +35,9 @@ RolesV(a) ==
                 (T.canon2 = T.canon /\ InZone(T.canon) /\ InZone(T.can.invd)) => T.can.invd2 = T.canon>>,
             <<"inversion-flips-invertedness",
                 (T.canon2 = T.canon /\ InZone(T.canon) /\ InZone(T.can.invd)) => T.can.inv_of_invd = ~T.can.inv>>,
-            <<"invert-swaps-source-and-target", T.tinv = <<"t", T.can.invd, "s">>>>,
-            <<"deinvert", T.tdeinv = (IF M.noop THEN <<"s", T.canon, "t">> ELSE IF T.can.inv THEN T.tinv ELSE <<"s", T.canon, "t">>)>>,
-            <<"canonicalize-triple-keeps-ends", T.tcanon = <<"s", T.canon, "t">>>> >>, 1)
+            <<"invert-swaps-source-and-target", T.tinv = <<T.tgt, T.can.invd, T.src>>>>,
+            <<"deinvert", T.tdeinv = (IF M.noop THEN <<T.src, T.canon, T.tgt>> ELSE IF T.can.inv THEN T.tinv ELSE <<T.src, T.canon, T.tgt>>)>>,
+            <<"canonicalize-triple-keeps-ends", T.tcanon = <<T.src, T.canon, T.tgt>>>> >>, 1)
          IN IF v # Acc THEN
                  \* a canonical role that is not inversion-canonical can only come from a normalisation table that is not closed
                  (IF ~ClosedTable(M) /\ v[2] \in {"inversion-is-an-involution-on-canonical-roles", "inversion-flips-invertedness"}
